@@ -30,23 +30,24 @@ type c15World struct {
 	poll   bool
 	tail   bool
 
-	expected   []byte // bytes appended after the start position, all incarnations, in order
-	delivered  []byte
-	incDeliv   int // bytes delivered from the current incarnation
-	incWritten int // bytes written to the current incarnation (after the start position)
-	fileExists bool
-	ready      bool // reader constructed (and drained)
-	readerDone bool
-	readerEOF  bool
-	eofAt      time.Duration
-	reads      int
-	tok        int
-	ops        []string
-	bad        bool
-	rotations  int
-	armedOp    string // an append is due right after the reader's next system call of this kind on the path
-	armedN     int
-	streamOver bool // plain follow: the file was removed after its data was delivered; the stream must end
+	expected    []byte // bytes appended after the start position, all incarnations, in order
+	delivered   []byte
+	incDeliv    int // bytes delivered from the current incarnation
+	incWritten  int // bytes written to the current incarnation (after the start position)
+	fileExists  bool
+	ready       bool // reader constructed (and drained)
+	readerDone  bool
+	readerEOF   bool
+	eofAt       time.Duration
+	reads       int
+	tok         int
+	ops         []string
+	bad         bool
+	rotations   int
+	armedOp     string // an append is due right after the reader's next system call of this kind on the path
+	armedN      int
+	armedRemove bool // the empty re-created file is removed right after the reader's next stat of the path
+	streamOver  bool // plain follow: the file was removed after its data was delivered; the stream must end
 }
 
 func (w *c15World) chunk(n int) []byte {
@@ -230,6 +231,20 @@ func init() {
 		s.FS.SetPlan(w.path, plan)
 		// "another process" acting between two system calls of the reader
 		s.FS.Hook = func(op, path string) {
+			if w.armedRemove && op == "stat" && path == w.path && w.fileExists && !w.bad && w.ready && w.incWritten == 0 {
+				// the (still empty) re-created file vanishes again between two system calls of the reader: it has just looked
+				// at the path, its next step (an open, a second stat) finds nothing
+				w.armedRemove = false
+				w.fileExists = false
+				s.RegisterRemove(w.path)
+				if err := os.Remove(w.path); err != nil {
+					panic(err)
+				}
+				w.opf("(right after the reader's stat call) remove the empty re-created file")
+				fsnotify.SimNotify(w.path, fsnotify.Remove)
+				rc.Fired["remove-between-syscalls"]++
+				return
+			}
 			if w.armedOp == "" || op != w.armedOp || path != w.path || !w.fileExists || w.bad || !w.ready {
 				return
 			}
@@ -286,8 +301,8 @@ func init() {
 					rc.Fired["sibling-file-event"]++
 				case k <= 6: // pause
 					// (multiples of the 250ms poll period put the writer and the poller at the same fake instant, where the scheduler
-				// decides who goes first, between any two of the poller's system calls)
-				d := []time.Duration{time.Millisecond, 30 * time.Millisecond, 249 * time.Millisecond, 251 * time.Millisecond, 1300 * time.Millisecond, 3 * time.Second, 250 * time.Millisecond, 500 * time.Millisecond, 1250 * time.Millisecond, 200 * time.Millisecond, 50 * time.Millisecond}[t.W(11)]
+					// decides who goes first, between any two of the poller's system calls)
+					d := []time.Duration{time.Millisecond, 30 * time.Millisecond, 249 * time.Millisecond, 251 * time.Millisecond, 1300 * time.Millisecond, 3 * time.Second, 250 * time.Millisecond, 500 * time.Millisecond, 1250 * time.Millisecond, 200 * time.Millisecond, 50 * time.Millisecond}[t.W(11)]
 					w.opf("pause %v", d)
 					time.Sleep(d)
 					simrt.Yield("world:pause")
@@ -364,6 +379,18 @@ func init() {
 						w.opf("re-create")
 					}
 					fsnotify.SimNotify(w.path, fsnotify.Create)
+					if w.reopen && t.WBool(1, 5) {
+						// ... and gone again before anything was written to it, at the worst moment for the reader; the next
+						// operations may re-create it once more
+						w.armedRemove = true
+						w.opf("arm: remove the empty file right after the reader's next stat")
+						w.waitUntil(3*time.Second, func() bool { return !w.armedRemove })
+						w.armedRemove = false
+						if !w.fileExists {
+							f = nil
+							continue
+						}
+					}
 					if w.poll {
 						// keep the new file shorter than what was delivered until the poller has noticed it
 						before := len(w.delivered)
